@@ -59,6 +59,8 @@ def main():
     ap.add_argument("--write-baseline", action="store_true")
     args = ap.parse_args()
     pid, tier = args.pid, args.tier
+    if args.write_baseline:
+        os.environ["VERIF_WRITE_BASELINE"] = "1"
     if tier not in ("quick", "thorough"):
         tier = "quick"
     seed = int(os.environ.get("VERIF_SEED", "0") or 0)
